@@ -201,7 +201,9 @@ def run_case(spec):
         trm, gdm = mine[k_][0], mine[k_][1]
         evM = events[jl]
         loc_m = K * ((0.0 if evM.kind == "time" else dy) * grad_h(evM) / max(abs(gdm), 1e-300) + tolx)
-        if mine[k_][3]:
+        if loc_m > 0.02 * L:
+            rec.bump("skipped_terminal_location_run_too_inaccurate")       # (this function's own location tolerance: the run cannot identify its crossings)
+        elif mine[k_][3]:
             rec.worst("terminal_location_over_tol", abs(te - trm) / loc_m)
             if abs(te - trm) > loc_m:
                 rec.violate("terminal_earliest", "terminal_event_time_far_from_true_root", feats, t_event=te, nearest_true_root=trm, tol=loc_m, event=evM.spec)
